@@ -35,7 +35,8 @@ type WorldConfig struct {
 	DELETEMethod      string   `json:"deleteMethod,omitempty"`
 	PATCHMethod       string   `json:"patchMethod,omitempty"`
 	Metrics           bool     `json:"metrics,omitempty"`
-	UnsubDelayMs      int      `json:"unsubDelayMs,omitempty"` // 0 = no delay (NoUnsubscribeDelay)
+	UnsubDelayMs      int      `json:"unsubDelayMs,omitempty"`     // 0 = no delay (NoUnsubscribeDelay)
+	PreciseRetention  bool     `json:"preciseRetention,omitempty"` // judge the known retention findings by their exact conditions (acyclic, event-free histories)
 	Procs             int      `json:"procs,omitempty"`
 	// Protocol: clients follow the protocol; an unsubscribe for more than the
 	// confirmed direct subscriptions is a no-op (keeps shrunk scripts in the domain).
